@@ -18,7 +18,7 @@ expressions symbolically over a small typed object language:
           (`…Src` for an observer given in trs, `…LlhSrc` for one given in llh)
   calls   rotation.enu2trs/trs2enu, nputil.take(M, k) (column k), nputil.row(a) @ nputil.col(b) (dot product),
           nputil.norm, nputil.unit_vector, nputil.col(scalar) under `/`, np.cross, np.stack((a, b, c), axis=-2) (rows),
-          np.squeeze, np.arctan2, np.arcsin, np.pi, np.zeros(M.shape), np.block([[A, B], [C, D]]), `M @ col`,
+          np.squeeze / `(M @ col)[..., 0]` / `(row @ col)[..., 0, 0]`, np.arctan2, np.arcsin, np.pi, np.zeros(M.shape), np.block([[A, B], [C, D]]), `M @ col`,
           `.T` / `.transpose(0, 2, 1)` of a matrix, and methods / properties of the classes listed in FRAMES (a
           reference to the generated definition of that method, receiver and argument passed on, views checked)
   bodies  docstring, `name = expr`, `a, b, _ = expr`, `return expr`, the cache idiom
@@ -212,6 +212,14 @@ class Ev:
                 if a.kind == b.kind == "S":
                     return T(f"({a.lean} / {b.lean})", "S")
             self.fail(e, f"operator on {a.kind} and {b.kind}")
+        if isinstance(e, ast.Subscript):
+            # dropping the matrix axes of a product: `(M @ col)[..., 0]` is the vector, `(row @ col)[..., 0, 0]` the number
+            base, idx = self.ex(e.value), ast.unparse(e.slice)
+            if idx == "(..., 0)" and base.kind == "Col":
+                return base.of
+            if idx == "(..., 0, 0)" and base.kind == "S":
+                return base
+            self.fail(e, f"subscript of a {base.kind}")
         if isinstance(e, ast.Call):
             return self.call(e)
         self.fail(e, "expression form")
